@@ -423,6 +423,22 @@ package wire
 //@   ensures [lookup] result.1 == nil && result.0 == (mapdom(cache.statements, name) ? cache.statements[name] : nil)
 //@   modifies nothing
 
+//@ func (*DefaultStatementCache).Close
+//@   props C07 C04
+//@   refines iface wire.CacheCloser.Close
+//@   requires cache != nil
+//@   ensures [removed] result == nil && !mapdom(cache.statements, name)
+//@   ensures [whole-view] forall k :: k != name ==> ((mapdom(cache.statements, k) <==> old(mapdom(cache.statements, k))) && (mapdom(cache.statements, k) ==> cache.statements[k] == old(cache.statements[k])))
+//@   modifies mapof(cache.statements)
+
+//@ func (*DefaultPortalCache).Close
+//@   props C07 C04
+//@   refines iface wire.CacheCloser.Close
+//@   requires cache != nil
+//@   ensures [removed] result == nil && !mapdom(cache.portals, name)
+//@   ensures [whole-view] forall k :: k != name ==> ((mapdom(cache.portals, k) <==> old(mapdom(cache.portals, k))) && (mapdom(cache.portals, k) ==> cache.portals[k] == old(cache.portals[k])))
+//@   modifies mapof(cache.portals)
+
 //@ func (*DefaultPortalCache).Bind
 //@   props C07 C08 C04
 //@   refines iface wire.PortalCache.Bind
@@ -768,6 +784,25 @@ package wire
 //@   ensures [nZ-monotone] #nZ >= old(#nZ)
 //@   modifies ExtHandlerEffects(srv, reader, writer, ctx)
 
+//@ func (*Session).handleClose
+//@   props C06 C07 C02 C04
+//@   requires HOK(srv, reader, writer, ctx)
+//@   requires [caches-wellformed] PortalsWF(srv)
+//@   ensures [C-reply] {C06} (result == nil && #nE == old(#nE)) ==> (#nOut == old(#nOut) + 1 && #last == '3')
+//@   ensures [C-error-once] {C06} #nE <= old(#nE) + 1 && #nE >= old(#nE)
+//@   ensures [error-starts-discard] {C06} (#nE > old(#nE) ==> srv.discard) && ((#nE == old(#nE) && !#failed) ==> srv.discard == old(srv.discard))
+//@   ensures [no-Z-unless-Sync] {C06} #nZ == old(#nZ)
+//@   ensures [no-callbacks] {C06} #nParse == old(#nParse) && #nExec == old(#nExec)
+//@   ensures [err-kind] result != nil ==> !isExceeded(result)
+//@   ensures [statement-removed] {C07} (result == nil && #nE == old(#nE) && IsDSC(srv.Statements) && old(mem(arr(reader.Msg), off(reader.Msg))) == 'S') ==> !mapdom(DSC(srv.Statements).statements, cstr(arr(old(reader.Msg)), off(old(reader.Msg)) + 1))
+//@   ensures [portal-removed] {C07} (result == nil && #nE == old(#nE) && IsDPC(srv.Portals) && old(mem(arr(reader.Msg), off(reader.Msg))) == 'P') ==> !mapdom(DPC(srv.Portals).portals, cstr(arr(old(reader.Msg)), off(old(reader.Msg)) + 1))
+//@   ensures [pos-monotone] reader.Buffer.#pos >= old(reader.Buffer.#pos)
+//@   ensures [caches-wellformed] PortalsWF(srv)
+//@   ensures [ok] HOK(srv, reader, writer, ctx)
+//@   ensures [own-maps] OwnMaps(srv)
+//@   ensures [nZ-monotone] #nZ >= old(#nZ)
+//@   modifies ExtHandlerEffects(srv, reader, writer, ctx)
+
 //@ func (*Session).handleCommand
 //@   props C06 C05 C07 C13 C19 C03 C04
 //@   requires HOK(srv, reader, writer, ctx) && conn != nil
@@ -775,13 +810,14 @@ package wire
 //@   ensures [sync-one-Z] {C06} (t == 'S' && result == nil) ==> (#nZ == old(#nZ) + 1 && #nOut == old(#nOut) + 1 && #nE == old(#nE))
 //@   ensures [no-Z-unless-Sync] {C06} (t == 'P' || t == 'B' || t == 'D' || t == 'E' || t == 'C' || t == 'H') ==> #nZ == old(#nZ)
 //@   ensures [discard-after-error] {C06} (old(srv.discard) && t != 'S' && t != 'X') ==> (result == nil && srv.discard && OutSame() && #nParse == old(#nParse) && #nExec == old(#nExec))
-//@   ensures [error-starts-discard] {C06} ((t == 'P' || t == 'B' || t == 'D' || t == 'E') && #nE > old(#nE)) ==> srv.discard
+//@   ensures [error-starts-discard] {C06} ((t == 'P' || t == 'B' || t == 'D' || t == 'E' || t == 'C') && #nE > old(#nE)) ==> srv.discard
 //@   ensures [sync-ends-discard] {C06} (t == 'S' && result == nil) ==> !srv.discard
 //@   ensures [discard-only-after-error] {C06} (!old(srv.discard) && #nE == old(#nE) && !#failed) ==> !srv.discard
 //@   ensures [flush-silent] {C06} t == 'H' ==> (result == nil && OutSame() && #nParse == old(#nParse) && #nExec == old(#nExec))
 //@   ensures [stray-copy-ignored] {C13} (t == 'd' || t == 'c' || t == 'f') ==> (result == nil && OutSame() && #nParse == old(#nParse) && #nExec == old(#nExec))
-//@   ensures [close-complete] {C06} (t == 'C' && !old(srv.discard)) ==> (result == nil && #nZ == old(#nZ) && #nE == old(#nE) && (#failed || (#nOut == old(#nOut) + 1 && #last == '3')))
-//@   ensures [close-removes] {C07} (t == 'C' && !old(srv.discard) && IsDSC(srv.Statements) && old(mem(arr(reader.Msg), off(reader.Msg))) == 'S') ==> !mapdom(DSC(srv.Statements).statements, cstr(arr(old(reader.Msg)), off(old(reader.Msg)) + 1))
+//@   ensures [close-complete] {C06} (t == 'C' && !old(srv.discard) && result == nil && #nE == old(#nE)) ==> (#nZ == old(#nZ) && #nOut == old(#nOut) + 1 && #last == '3' && #nParse == old(#nParse) && #nExec == old(#nExec))
+//@   ensures [close-removes] {C07} (t == 'C' && !old(srv.discard) && result == nil && #nE == old(#nE) && IsDSC(srv.Statements) && old(mem(arr(reader.Msg), off(reader.Msg))) == 'S') ==> !mapdom(DSC(srv.Statements).statements, cstr(arr(old(reader.Msg)), off(old(reader.Msg)) + 1))
+//@   ensures [close-removes-portal] {C07} (t == 'C' && !old(srv.discard) && result == nil && #nE == old(#nE) && IsDPC(srv.Portals) && old(mem(arr(reader.Msg), off(reader.Msg))) == 'P') ==> !mapdom(DPC(srv.Portals).portals, cstr(arr(old(reader.Msg)), off(old(reader.Msg)) + 1))
 //@   ensures [terminate-stops] {C19} t == 'X' ==> (result != nil && #nTerminate <= old(#nTerminate) + 1 && OutSame() && #nParse == old(#nParse) && #nExec == old(#nExec))
 //@   ensures [terminate-closes] {C19} (t == 'X' && (srv.Server.TerminateConn == nil || #termErrNil)) ==> #connClosed == old(#connClosed) + 1
 //@   ensures [simple-query-one-Z] {C05} (t == 'Q' && result == nil && !old(srv.discard)) ==> (#nZ == old(#nZ) + 1 && #last == 'Z' && (old(#cyc) == 0 ==> #cyc == 0))
